@@ -35,7 +35,7 @@ import (
 //	    calls = Release calls seen on the permit after quiescence, free = outbound permits obtainable after quiescence.
 //	gossip <limit> <targets> <room> | ok queued=<q> free=<f>
 //	    real GossipAndReturnPeers on a node whose offer workers are not running, `room` free places in the offer queue
-//	gossipdrain <limit> <targets> <rounds> <queue-capacity> | ok queued=<q> free_before=<f> free_after=<g>
+//	gossipdrain <limit> <targets> <rounds> <queue-capacity> <total targets seen> | ok queued=<q> free_before=<f> free_after=<g>
 //	    the same with an empty queue and limit > queue size until the queue overflows; then the workers are started and
 //	    every queued offer runs through offerWorker -> offer -> processOffer against peers answering with an empty reply
 //	shutdownqueued <limit> <targets> | ok queued=<q> free=<f>      gossip, then Stop() with the requests still queued
@@ -47,6 +47,10 @@ import (
 //	    sender dials the announced connection id and STALLS (stream open, nothing written); during the stall: free inbound
 //	    slots (during) and a second TALKREQ OFFER of another key (second = it was accepted); then the first sender writes
 //	    and closes (delivered), a second accepted transfer is completed too, after = free slots at quiescence
+//	ostall <limit> <held0> v<ver> | ok res=<ok|err> during=<f> calls_during=<n> after=<f> calls=<n>
+//	    outbound: `held0` outbound slots taken by the harness, one more taken for an offer that the peer ACCEPTS with a
+//	    connection id on which no uTP stream ever comes up: the transfer goroutine keeps dialling.  during / calls_during =
+//	    free outbound slots and Release calls seen 400 ms after offer() returned, after / calls = at quiescence
 //	instress <limit> <n> | ok accepted=<a> free=<f>                n offers of distinct keys at once, then Stop()
 //	stress <limit> <k> <m> | ok peak=<p> free=<f>                  k goroutines x m offers, peak = most slots held at once
 func init() { registry["C16"] = runC16 }
@@ -379,9 +383,11 @@ func c16gossipDrainCase(g *c16gen, limit, t, rounds int) string {
 		defer peers[i].Close()
 	}
 	c16addTargets(g, A, t, peers)
-	targets := 0
+	// how many targets a round really has depends on the routing table at that moment (revalidation drops and re-adds
+	// the scripted peers): the total is an observation handed to the model as an input, like a connection id
+	total := 0
 	for i := 0; i < rounds; i++ {
-		targets = c16gossip(A, g)
+		total += c16gossip(A, g)
 	}
 	queued := A.OfferQueueLen()
 	before := c16free(A.OutboundPermit, limit)
@@ -389,7 +395,7 @@ func c16gossipDrainCase(g *c16gen, limit, t, rounds int) string {
 	c16settle(30*time.Second, func() bool { return A.OfferQueueLen() == 0 })
 	c16settle(3*time.Second, func() bool { return c16free(A.OutboundPermit, limit) == limit })
 	after := c16free(A.OutboundPermit, limit)
-	return fmt.Sprintf("gossipdrain %d %d %d %d | ok queued=%d free_before=%d free_after=%d", limit, targets, rounds, A.OfferQueueCap(), queued, before, after)
+	return fmt.Sprintf("gossipdrain %d %d %d %d %d | ok queued=%d free_before=%d free_after=%d", limit, t, rounds, A.OfferQueueCap(), total, queued, before, after)
 }
 
 func c16shutdownQueuedCase(g *c16gen, limit, t int) string {
@@ -696,6 +702,44 @@ func c16stallCase(g *c16gen, limit, held0, ver int) string {
 	return fmt.Sprintf("stall %d %d v%d | ok first=%d during=%d second=%d delivered=%d after=%d restream=%s", limit, held0, ver, first, during, second, delivered, after, restream)
 }
 
+// ---------------------------------------------------------------- outbound: slot held while the transfer is in progress
+
+func c16ostallCase(g *c16gen, limit, held0, ver int) string {
+	A, _ := c16node(g, limit, []byte{0, 1}, 4, true)
+	defer A.Stop()
+	var held []portalwire.Permit
+	for i := 0; i < held0; i++ {
+		if p, ok := A.OutboundPermit(); ok {
+			held = append(held, p)
+		}
+	}
+	defer func() {
+		for _, p := range held {
+			p.Release()
+		}
+	}()
+	inner, ok := A.OutboundPermit()
+	if !ok {
+		return fmt.Sprintf("ostall %d %d v%d | err 1", limit, held0, ver)
+	}
+	permit := &c16permit{inner: inner}
+	reply := c16accept(ver, uint16(1+g.intn(60000)), []bool{true})
+	peer := c16newPeer(g, c16pv(ver), func([]byte) []byte { return reply })
+	defer peer.Close()
+	key := append([]byte("c16-ostall-"), g.bytes(10)...)
+	_, err := A.Offer(peer.Self(), portalwire.VerifOTransientOffer([][]byte{key}, [][]byte{g.bytes(64)}), permit)
+	time.Sleep(400 * time.Millisecond) // the transfer goroutine is dialling (nothing answers on that connection id)
+	during := c16free(A.OutboundPermit, limit)
+	callsDuring := permit.calls.Load()
+	c16settle(25*time.Second, func() bool { return c16free(A.OutboundPermit, limit) == limit-held0 && permit.calls.Load() >= 1 })
+	after := c16free(A.OutboundPermit, limit)
+	res := "ok"
+	if err != nil {
+		res = "err"
+	}
+	return fmt.Sprintf("ostall %d %d v%d | ok res=%s during=%d calls_during=%d after=%d calls=%d", limit, held0, ver, res, during, callsDuring, after, permit.calls.Load())
+}
+
 // ---------------------------------------------------------------- outbound stress
 
 func c16stressCase(g *c16gen, limit, k, m int) string {
@@ -894,8 +938,14 @@ func c16jobOf0(g *c16gen, f []string) *c16job {
 		return &c16job{run: func() string { return c16shutdownQueuedCase(g, c16atoi(f[1]), c16atoi(f[2])) }}
 	case "in":
 		return &c16job{run: func() string { return c16inCase(g, f[1], c16atoi(f[2]), f[3], c16atoi(f[4])) }}
+	case "ostall":
+		return &c16job{run: func() string {
+			return c16ostallCase(g, c16atoi(f[1]), c16atoi(f[2]), c16atoi(strings.TrimPrefix(f[3], "v")))
+		}}
 	case "stall":
-		return &c16job{run: func() string { return c16stallCase(g, c16atoi(f[1]), c16atoi(f[2]), c16atoi(strings.TrimPrefix(f[3], "v"))) }}
+		return &c16job{run: func() string {
+			return c16stallCase(g, c16atoi(f[1]), c16atoi(f[2]), c16atoi(strings.TrimPrefix(f[3], "v")))
+		}}
 	case "instress":
 		return &c16job{run: func() string { return c16inStressCase(g, c16atoi(f[1]), c16atoi(f[2])) }}
 	case "stress":
@@ -959,6 +1009,8 @@ func runC16(c *Ctx) {
 	}
 	add(&slow, fmt.Sprintf("gossipdrain %d %d %d", 1000+50+r.Intn(100), 4, 250+1+r.Intn(12)))
 	// a transfer in progress keeps its slot: stalled senders (about 1.5 s each, in the background)
+	add(&slow, fmt.Sprintf("ostall 1 0 v%d", r.Intn(2)))
+	add(&slow, fmt.Sprintf("ostall 3 %d v%d", 2*r.Intn(2), r.Intn(2)))
 	add(&slow, fmt.Sprintf("stall 1 0 v%d", r.Intn(2)))
 	add(&slow, fmt.Sprintf("stall 3 %d v%d", 2*r.Intn(2), r.Intn(2)))
 	if thorough {
